@@ -65,6 +65,15 @@ def order_datatypes(text):
     on another when it mentions its sort name)."""
     if text.count('(declare-datatypes') < 2:
         return text
+    # only the declaration header needs re-ordering; the assertions (the bulk of the text) follow it
+    cut = text.find('\n(assert')
+    tail = ''
+    if cut > 0 and '(declare-datatypes' not in text[cut:]:
+        text, tail = text[:cut], text[cut:]
+    return _order_header(text) + tail
+
+
+def _order_header(text):
     forms = _top_forms(text)
     dts = [(k, f) for k, f in enumerate(forms) if f.startswith('(declare-datatypes')]
     names = {}
